@@ -429,9 +429,91 @@ func sample(c Case) any {
 	return s
 }
 
+// History: several symbols through ONE DataMatrixWriter and ONE DataMatrixReader, with failing
+// reads in between; each step must give exactly what fresh instances give.
+type HStep struct {
+	Case  Case   `json:"case"`
+	Noise string `json:"noise,omitempty"` // "", blank, damaged
+}
+type History struct {
+	Steps []HStep `json:"steps"`
+}
+
+func checkHistory(raw json.RawMessage) error {
+	var h History
+	if err := json.Unmarshal(raw, &h); err != nil {
+		return fmt.Errorf("hx: %v", err)
+	}
+	w, r := datamatrix.NewDataMatrixWriter(), datamatrix.NewDataMatrixReader()
+	pure := map[gozxing.DecodeHintType]interface{}{gozxing.DecodeHintType_PURE_BARCODE: true}
+	for i, st := range h.Steps {
+		c := st.Case
+		if _, ok := latin1(c.Text); !ok || c.Text == "" {
+			return fmt.Errorf("hx: step text outside the domain")
+		}
+		mk := func() map[gozxing.EncodeHintType]interface{} {
+			hints := map[gozxing.EncodeHintType]interface{}{}
+			if c.Shape > 0 {
+				hints[gozxing.EncodeHintType_DATA_MATRIX_SHAPE] = shapes[c.Shape]
+			}
+			if m := dimOf(c.Min); m != nil {
+				hints[gozxing.EncodeHintType_MIN_SIZE] = m
+			}
+			if m := dimOf(c.Max); m != nil {
+				hints[gozxing.EncodeHintType_MAX_SIZE] = m
+			}
+			return hints
+		}
+		desc := fmt.Sprintf("step %d of %d on one writer/reader: text=%s shape=%d min=%v max=%v after noise %q", i+1, len(h.Steps), show(c.Text), c.Shape, c.Min, c.Max, st.Noise)
+		var bm, fresh *gozxing.BitMatrix
+		var err, ferr error
+		if e := hx.Watch("DataMatrixWriter.Encode "+desc, func() error {
+			bm, err = w.Encode(c.Text, gozxing.BarcodeFormat_DATA_MATRIX, c.ReqW, c.ReqH, mk())
+			fresh, ferr = datamatrix.NewDataMatrixWriter().Encode(c.Text, gozxing.BarcodeFormat_DATA_MATRIX, c.ReqW, c.ReqH, mk())
+			return nil
+		}); e != nil {
+			return e
+		}
+		if (err == nil) != (ferr == nil) {
+			return fmt.Errorf("reused writer: %v, fresh writer: %v [%s]", err, ferr, desc)
+		}
+		if err != nil {
+			continue
+		}
+		if bm.GetWidth() != fresh.GetWidth() || bm.GetHeight() != fresh.GetHeight() || bm.String() != fresh.String() {
+			return fmt.Errorf("reused writer produced a different %dx%d symbol than a fresh writer (%dx%d) [%s]", bm.GetWidth(), bm.GetHeight(), fresh.GetWidth(), fresh.GetHeight(), desc)
+		}
+		if st.Noise != "" {
+			nz, _ := gozxing.NewBitMatrix(bm.GetWidth(), bm.GetHeight())
+			if st.Noise == "damaged" {
+				for y := 0; y < bm.GetHeight(); y++ {
+					for x := 0; x < bm.GetWidth(); x++ {
+						if bm.Get(x, y) && (y < bm.GetHeight()/2 || x == 0 || y == bm.GetHeight()-1) {
+							nz.Set(x, y)
+						}
+					}
+				}
+			}
+			nb, _ := gozxing.NewBinaryBitmapFromImage(nz)
+			r.Decode(nb, pure) // outcome irrelevant
+			r.Decode(nb, nil)
+		}
+		bmp, _ := gozxing.NewBinaryBitmapFromImage(bm)
+		res, err := r.Decode(bmp, pure)
+		if err != nil {
+			return fmt.Errorf("reused reader failed on the produced %dx%d image: %v [%s]", bm.GetWidth(), bm.GetHeight(), err, desc)
+		}
+		if res.GetText() != c.Text || res.GetBarcodeFormat() != gozxing.BarcodeFormat_DATA_MATRIX {
+			return fmt.Errorf("reused reader read %s [%s]", show(res.GetText()), desc)
+		}
+	}
+	return nil
+}
+
 func TestCheck(t *testing.T) {
 	hx.Main(t, "C02", func(c *hx.Ctx) {
 		c.Register("dm_roundtrip", check)
+		c.Register("dm_history", checkHistory)
 	}, func(c *hx.Ctx) {
 		prop := func(sub, path string) func(t *rapid.T) {
 			return func(t *rapid.T) {
@@ -453,6 +535,43 @@ func TestCheck(t *testing.T) {
 		}
 		c.Rapid("codeword_level", c.N(25000, 400000), prop("codeword_level", "codewords"))
 		c.Rapid("image_pipeline", c.N(500, 4000), prop("image_pipeline", "image"))
+		c.Rapid("instance_histories", c.N(150, 3000), func(t *rapid.T) {
+			var h History
+			n := rapid.IntRange(2, 4).Draw(t, "steps")
+			noisy := 0
+			shapesSeen := map[int]bool{}
+			for len(h.Steps) < n {
+				cs, _ := genCase(t, "image")
+				if _, ok := latin1(cs.Text); !ok || cs.Text == "" {
+					continue
+				}
+				st := HStep{Case: cs, Noise: rapid.SampledFrom([]string{"", "", "blank", "damaged"}).Draw(t, "noise")}
+				if st.Noise != "" {
+					noisy++
+				}
+				shapesSeen[cs.Shape] = true
+				h.Steps = append(h.Steps, st)
+			}
+			cl := fmt.Sprintf("steps=%d", n)
+			if noisy > 0 {
+				cl += ";failed_reads_between"
+			}
+			if len(shapesSeen) > 1 {
+				cl += ";shape_hint_changes"
+			}
+			raw, _ := json.Marshal(h)
+			c.Note("instance_histories", cl, noisy > 0 || len(shapesSeen) > 1, hx.Hash(raw), func() any {
+				hs := History{}
+				for _, st := range h.Steps {
+					st.Case = sample(st.Case).(Case)
+					hs.Steps = append(hs.Steps, st)
+				}
+				return hs
+			})
+			if err := c.Eval("dm_history", h); err != nil {
+				t.Fatalf("%v", err)
+			}
+		})
 
 		// every one of the 30 sizes through the full pipeline, forced by hints
 		for si, a := range dmref.Sizes {
